@@ -27,7 +27,8 @@ MANIFEST_ENTRY = {
         "hypothesis (vod_time_partial, D11 witness); for any contiguous ftyp/moov/sidx/free/moof/mdat box "
         "sequence the indexed byte ranges tile the file and every segment starts on ftyp/moof "
         "(ranges_tile_partial, segments_start_on_moof). Tied to the code by correspondence on real "
-        "Representation objects, real indexing of synthetic files, and real static manifests end to end."),
+        "Representation objects, real indexing of synthetic files, and real static manifests end to end."
+        " The VOD branch of generateSegmentTimeline and the handler's VOD index calculation are in addition translated from the source text into Lean on every run and proved equal to the model (tie_timelineVod, tie_vodIndexTime/Number, Props/Generated.lean)."),
     "level_note": (
         "D18 (VOD timeline wrapped for tracks shorter than the reference) repaired by a fix: commit. D11 "
         "(VOD $Time$ with irregular durations) is an open ledger entry. A styp/emsg between fragments is outside "
